@@ -100,6 +100,7 @@ pub struct Focus {
     pub eval_purity: bool,     // C14 on the boards the producers build
     pub pv_descriptor: bool,   // C18: the first PV move an info line would print for a root move is that move
     pub check_detection: bool, // C06 on the boards the three producers build (king cache as THEY set it)
+    pub skip_kkx_only: bool, // C04: Kk+X has no castling, en passant or promotion: left to C02/C05, the ep families stay
     pub skip_kkx: bool,   // leave the Kk+X family to the sibling property that runs the same oracle on it
 }
 
@@ -117,6 +118,7 @@ impl Focus {
             pv_descriptor: p == "C18",
             check_detection: p == "C06",
             skip_kkx: p == "C03" || p == "C06" || p == "C14" || p == "C18",
+            skip_kkx_only: p == "C04",
         }
     }
 }
@@ -403,9 +405,16 @@ impl<'a> Explorer<'a> {
                 if self.focus.applier {
                     // "every move the engine generates, printed as text and replayed, reproduces its own successor":
                     // the text is what the engine's own printer prints for this successor
-                    let text = match self.printed(succ) {
-                        Ok(t) => t.split_whitespace().nth(1).unwrap_or("").to_string(),
-                        Err(_) => mv.uci(),
+                    // (the printer prints the descriptor squares plus the descriptor's promotion letter; `mv` was read
+                    // from the same descriptor squares, so the two can only differ when a promotion piece is involved:
+                    // the real printer is called exactly then)
+                    let text = if succ.pawn_promotion.is_some() || mv.promo != 0 {
+                        match self.printed(succ) {
+                            Ok(t) => t.split_whitespace().nth(1).unwrap_or("").to_string(),
+                            Err(_) => mv.uci(),
+                        }
+                    } else {
+                        mv.uci()
                     };
                     if text != mv.uci() {
                         bump(l, "edges_whose_printed_text_differs_from_the_rules_text");
@@ -978,6 +987,21 @@ pub fn family_castle(color: u8, extra: usize, second_piece_types: &[u8], only_ek
 /// En-passant family: a pawn of `mover` has just double-stepped (target set), enemy pawn(s) beside it,
 /// kings as given by the mode, one further slider/knight (or none) anywhere.
 pub fn family_ep(mover: u8, only_file: i8) -> Vec<Pos> {
+    let mut v = Vec::new();
+    for side in 0..3 {
+        v.extend(family_ep_side(mover, only_file, side));
+    }
+    v
+}
+
+/// one capturer configuration (0: capturer on the left, 1: on the right, 2: both) — a finer work item
+pub fn family_ep_side(mover: u8, only_file: i8, only_side: usize) -> Vec<Pos> {
+    family_ep_side_thin(mover, only_file, only_side, false)
+}
+
+/// `thin`: only no further piece or one queen of either colour (what pins and discovered checks need is C01's
+/// business; the text applier and the successor fields do not depend on the kind of the further piece)
+pub fn family_ep_side_thin(mover: u8, only_file: i8, only_side: usize, thin: bool) -> Vec<Pos> {
     let mut out = Vec::new();
     let capturer = mover ^ 1;
     let (pawn_rank, target_rank) = if mover == rules::WHITE { (3i8, 2i8) } else { (4i8, 5i8) };
@@ -985,14 +1009,16 @@ pub fn family_ep(mover: u8, only_file: i8) -> Vec<Pos> {
         let mut v = vec![rules::EMPTY];
         for c in [rules::WHITE, rules::BLACK] {
             for k in [rules::Q, rules::R, rules::B, rules::N] {
-                v.push(rules::pc(c, k));
+                if !thin || k == rules::Q {
+                    v.push(rules::pc(c, k));
+                }
             }
         }
         v
     };
     let fixed_squares: [u8; 4] = [63, 56, 7, 0];
     for f in only_file..=only_file {
-        for side in 0..3 {
+        for side in only_side..=only_side {
             // 0: capturer on the left, 1: on the right, 2: both
             let lefts = side == 0 || side == 2;
             let rights_ = side == 1 || side == 2;
@@ -1136,6 +1162,11 @@ pub fn family_ep_discovered_with(mover: u8, only_file: i8, attacker_extra: bool)
 /// Promotion family: pawn of `color` one step from promotion, kings per mode, one enemy piece (or none)
 /// anywhere; with `with_rights` the enemy king sits at home with rook(s) and rights (corner captures).
 pub fn family_promo(color: u8, with_rights: bool, only_file: i8) -> Vec<Pos> {
+    family_promo_cfg(color, with_rights, only_file, None)
+}
+
+/// `only_cfg`: one of the three rook/right configurations of the variant with rights (finer work item)
+pub fn family_promo_cfg(color: u8, with_rights: bool, only_file: i8, only_cfg: Option<usize>) -> Vec<Pos> {
     let mut out = Vec::new();
     let enemy = color ^ 1;
     let pawn_rank = if color == rules::WHITE { 6i8 } else { 1i8 };
@@ -1151,7 +1182,10 @@ pub fn family_promo(color: u8, with_rights: bool, only_file: i8) -> Vec<Pos> {
         base.stm = color;
         if with_rights {
             let (kbit, qbit) = if enemy == rules::WHITE { (rules::WK, rules::WQ) } else { (rules::BK, rules::BQ) };
-            for (h_rook, a_rook, rights) in [(true, false, kbit), (false, true, qbit), (true, true, kbit | qbit)] {
+            for (ci, (h_rook, a_rook, rights)) in [(true, false, kbit), (false, true, qbit), (true, true, kbit | qbit)].into_iter().enumerate() {
+                if only_cfg.map(|c| c != ci).unwrap_or(false) {
+                    continue;
+                }
                 let mut b0 = base;
                 b0.b[rules::sq_at(4, enemy_home).unwrap() as usize] = rules::pc(enemy, rules::K);
                 if h_rook {
@@ -1320,7 +1354,7 @@ pub fn run(rep: &Report, focus: Focus) -> E1Result {
 
     // K+k+X : 64 items by white king square (not in the quick tier of C13: with one further piece a capture
     // chain has length one; the family is part of C13's thorough tier)
-    if !(focus.captures && quick) && !focus.skip_kkx {
+    if !(focus.captures && quick) && !focus.skip_kkx && !(focus.skip_kkx_only && quick) {
     run_family(
         "Kk+X (both kings anywhere, at most one further piece of any type anywhere, both sides to move)",
         (0..64u8).map(|wk| Box::new(move || family_kkx(wk..wk + 1)) as Item).collect(),
@@ -1360,7 +1394,10 @@ pub fn run(rep: &Report, focus: Focus) -> E1Result {
         let mut items: Vec<Item> = Vec::new();
         for c in [rules::WHITE, rules::BLACK] {
             for f in 0..8i8 {
-                items.push(Box::new(move || family_ep(c, f)));
+                for side in 0..3usize {
+                    let thin = focus.skip_kkx_only && quick;
+                    items.push(Box::new(move || family_ep_side_thin(c, f, side, thin)));
+                }
             }
         }
         run_family(
@@ -1387,7 +1424,9 @@ pub fn run(rep: &Report, focus: Focus) -> E1Result {
         for c in [rules::WHITE, rules::BLACK] {
             for f in 0..8i8 {
                 items.push(Box::new(move || family_promo(c, false, f)));
-                items_r.push(Box::new(move || family_promo(c, true, f)));
+                for cfg in 0..3usize {
+                    items_r.push(Box::new(move || family_promo_cfg(c, true, f, Some(cfg))));
+                }
             }
         }
         run_family("promo (pawn one step from promotion, one king anywhere, one enemy piece anywhere)", items, if quick { 0 } else { 1 });
